@@ -73,7 +73,7 @@ const c_my MyInt = 3
 
 var opsTypeNames = map[string]string{
 	"utint": "untyped int", "utrune": "untyped rune", "utfloat": "untyped float", "utstring": "untyped string",
-	"utbool": "untyped bool", "utnil": "untyped nil", "MyInt": "p.MyInt",
+	"utbool": "untyped bool", "utnil": "untyped nil",
 }
 
 func opsTypeName(s string) string {
@@ -189,7 +189,7 @@ func (r *opsRef) eval(text string) opsOutcome {
 	if err != nil {
 		return opsOutcome{Kind: "reject", Msg: err.Error()}
 	}
-	o := opsOutcome{Kind: "ok", Type: tv.Type.String(), Const: constString(tv.Value)}
+	o := opsOutcome{Kind: "ok", Type: strings.TrimPrefix(tv.Type.String(), "p."), Const: constString(tv.Value)}
 	return o
 }
 
@@ -285,7 +285,13 @@ func (b *opsBuilder) build(p opsPoint) (o opsOutcome) {
 		b.push(p.X)
 		cb.UnaryOp(opsTokens[p.Op[1:]])
 	case "conv":
-		cb.Typ(b.pkg.Types.Scope().Lookup(p.Y).Type())
+		var T types.Type
+		if o := b.pkg.Types.Scope().Lookup(p.Y); o != nil {
+			T = o.Type()
+		} else {
+			T = types.Universe.Lookup(p.Y).Type()
+		}
+		cb.Typ(T)
 		b.push(p.X)
 		cb.Call(1)
 	default:
